@@ -521,7 +521,7 @@ double OneDimensionalNodes::getClenshawCurtisWeight(int level, int point){
     }else{
         int z = point - 1, l = 1;
         while (z >>= 1){ l++; };
-        ieffective = (1 + 2 *(point - OneDimensionalMeta::getNumPoints(l-1, rule_clenshawcurtis))) * (n-1) / (1 << l);
+        ieffective = (1 + 2 *(point - OneDimensionalMeta::getNumPoints(l-1, rule_clenshawcurtis))) * ((n-1) / (1 << l)); // n-1 is a power of two not smaller than 2^l
     }
 
     double weight = 1.0;
@@ -560,7 +560,7 @@ double OneDimensionalNodes::getClenshawCurtisWeightZero(int level, int point){
     }else{
         int z = point +1, l = 1;
         while (z >>= 1){ l++; };
-        ieffective = (1 + 2 *(point + 2 - OneDimensionalMeta::getNumPoints(l-1, rule_clenshawcurtis))) * (n-1) / (1 << l);
+        ieffective = (1 + 2 *(point + 2 - OneDimensionalMeta::getNumPoints(l-1, rule_clenshawcurtis))) * ((n-1) / (1 << l)); // n-1 is a power of two not smaller than 2^l
     }
 
     double weight = 1.0;
